@@ -462,10 +462,11 @@ class World:
             if not runnable:
                 return
             order = ([current] + [a for a in runnable if a is not current]) if (current is not None and not current.done) else runnable
-            nxt = order[ch.draw("next-actor", len(order))]          # 0 = stay on the current actor
-            if left > 0 and len(runnable) > 1 and ch.chance("preempt?", 1, 2):
-                k = ch.weighted("budget-class", [3, 3, 2])
-                budget = 1 + (ch.draw("budget", 6) if k == 0 else 6 + ch.draw("budget", 40) if k == 1 else 46 + ch.draw("budget", 400))
+            nxt = order[ch.draw("next-actor", len(order), stream="sched")]          # 0 = stay on the current actor
+            if left > 0 and len(runnable) > 1 and ch.chance("preempt?", 1, 2, stream="sched"):
+                k = ch.weighted("budget-class", [3, 3, 2], stream="sched")
+                budget = 1 + (ch.draw("budget", 6, stream="sched") if k == 0 else 6 + ch.draw("budget", 40, stream="sched") if k == 1
+                              else 46 + ch.draw("budget", 400, stream="sched"))
                 if self.opcode_level:
                     budget *= 5
             else:
